@@ -426,8 +426,9 @@ class Gen:
         kw = {}
         r = self.rng
         kw['defined_channels'] = set(channels)          # parents need these three
-        kw['parameter_names'] = {self.par('v'), self.par('d')}
-        kw['measurement_names'] = {'m%d' % r.randrange(3)}
+        # (an explicitly EMPTY declaration is a declaration too)
+        kw['parameter_names'] = {self.par('v'), self.par('d')} if r.random() < 0.75 else set()
+        kw['measurement_names'] = {'m%d' % r.randrange(3)} if r.random() < 0.7 else set()
         if full or r.random() < 0.5:
             kw['integral'] = {c: self.vexpr() for c in channels}
         if full or r.random() < 0.6:
